@@ -38,6 +38,19 @@ func runDistribute(c *core.Ctx) {
 	mode := []string{"-c", "-H", "-n", "-c-d"}[c.Idx%4]
 	fastq := c.Rng.Intn(3) == 0
 	recs := mkRecords(c.Rng, 40+c.Rng.Intn(80), fastq, false)
+	slashValues := mode == "-c" && c.Idx%8 == 4
+	if slashValues {
+		// class values that differ only by '/' against '_' (sample names such as "x/y" and "x_y"): two
+		// classes, two files (the first one in the sub-directory part_x, created beforehand)
+		for i := range recs {
+			switch recs[i].Sample {
+			case "aa":
+				recs[i].Sample = "x/y"
+			case "ab":
+				recs[i].Sample = "x_y"
+			}
+		}
+	}
 	dir := filepath.Join(c.Dir, fmt.Sprintf("dist-%d", c.Idx))
 	defer os.RemoveAll(dir)
 	// two runs: original order and a shuffled order, different parallel settings
@@ -51,6 +64,9 @@ func runDistribute(c *core.Ctx) {
 	for run, ord := range orders {
 		od := filepath.Join(dir, fmt.Sprintf("run%d", run))
 		os.MkdirAll(od, 0o755)
+		if slashValues {
+			os.MkdirAll(filepath.Join(od, "part_x"), 0o755)
+		}
 		var rs []R
 		for _, i := range ord {
 			rs = append(rs, recs[i])
